@@ -225,6 +225,8 @@ func (w *cworld) applyExt(op extOp) {
 		}
 		if g, ok := md(cur)["generation"].(int64); ok {
 			md(cur)["generation"] = g + 1
+		} else {
+			md(cur)["generation"] = int64(2)
 		}
 		delete(md(cur), "resourceVersion")
 		w.srv.Seed(cur)
@@ -344,7 +346,13 @@ func runScenario(sc *scenario) (*caseRec, error) {
 		h["X-Verif-Seq"] = fmt.Sprint(len(w.srv.Log()))
 		return code, h, body, ne
 	})
-	w.srv.Seed(runtime.DeepCopyJSON(sc.Parent))
+	seedParent := runtime.DeepCopyJSON(sc.Parent)
+	if md, ok := seedParent["metadata"].(map[string]interface{}); ok {
+		if _, has := md["generation"]; !has {
+			md["generation"] = int64(1) // as an object created through the API would carry
+		}
+	}
+	w.srv.Seed(seedParent)
 	key := parentKey(sc.Parent)
 	if sc.Warmup {
 		b, err := w.buildPC(&sc.Ctl)
